@@ -13,6 +13,8 @@ import (
 	"sort"
 	"strconv"
 	"strings"
+	"sync"
+	"sync/atomic"
 	"time"
 	_ "time/tzdata"
 
@@ -879,6 +881,120 @@ func c20K1(c *Ctx) {
 		}
 	}
 	c20K1Parser(c)
+	c20K1Exhaustive(c, z)
+}
+
+// c20K1Exhaustive walks every minute of a span (quick: one year, one zone per spec; thorough: 2024-2030 in all five
+// zones) for a few fixed and generated specs and compares IsRunAt with the AST oracle (the model is not in this
+// loop; a disagreement here would also show as an oracle violation in the sampled part)
+func c20K1Exhaustive(c *Ctx, z *c20zones) {
+	r := c.R
+	fixed := []string{"* * L * *", "0 0 * * 7L", "30 2 * * *", "15 9 * * 1#5,5#1", "0 12 29 2 *", "*/7 */5 1-31/3 */2 1-5", "59 23 31 12 7", "0 0 13 * 5"}
+	var specs []cSpec
+	for _, t := range fixed {
+		sp, ok := c20parseText(t)
+		if ok {
+			specs = append(specs, sp)
+		}
+	}
+	for i := 0; i < c.N(2, 12); i++ {
+		specs = append(specs, c20force(c.Rng, c20spec(c.Rng), time.Date(2026, 3, 31, 0, 0, 0, 0, time.UTC), i%3))
+	}
+	from, to := time.Date(2024, 1, 1, 0, 0, 0, 0, time.UTC), time.Date(2031, 1, 1, 0, 0, 0, 0, time.UTC)
+	var total, matches int64
+	var wg sync.WaitGroup
+	sem := make(chan struct{}, 8)
+	for si, sp := range specs {
+		text := sp.String()
+		impl, err := c20parse(r, text)
+		if err != nil {
+			r.Violation("C20/valid-spec-rejected", fmt.Sprintf("spec %q is inside the grammar but cronParseSpec returned %v", text, err), map[string]interface{}{"spec": text})
+			continue
+		}
+		for zi, l := range z.loc {
+			from, to := from, to
+			if !c.Thorough() {
+				// one zone and one year per spec
+				if zi != si%len(z.loc) {
+					continue
+				}
+				y := 2024 + (si*3)%7
+				from, to = time.Date(y, 1, 1, 0, 0, 0, 0, time.UTC), time.Date(y+1, 1, 1, 0, 0, 0, 0, time.UTC)
+			}
+			wg.Add(1)
+			sem <- struct{}{}
+			go func(sp cSpec, text string, zi int, l *time.Location, from, to time.Time) {
+				defer wg.Done()
+				defer func() { <-sem }()
+				bad := 0
+				var n, m int64
+				for t := from; t.Before(to); t = t.Add(time.Minute) {
+					tl := t.In(l)
+					got, want := impl.IsRunAt(tl), sp.matches(tl)
+					n++
+					if want {
+						m++
+					}
+					if got != want && bad < 3 {
+						bad++
+						r.Violation(c20sigIsRunAt(sp, tl), fmt.Sprintf("spec %q at %s (%s): crontab rules say %v, IsRunAt says %v", text, tl.Format("2006-01-02 15:04 Mon"), c20zoneNames[zi], want, got),
+							map[string]interface{}{"spec": text, "zone": c20zoneNames[zi], "time": tl.Format(time.RFC3339)})
+					}
+				}
+				atomic.AddInt64(&total, n)
+				atomic.AddInt64(&matches, m)
+			}(sp, text, zi, l, from, to)
+		}
+	}
+	wg.Wait()
+	r.CountN("k1.exhaustive.minutes", int(total))
+	r.CountN("k1.exhaustive.matches", int(matches))
+	r.mu.Lock()
+	r.Evaluations += int(total)
+	r.mu.Unlock()
+}
+
+// c20parseText reads the canonical text of a spec back into the harness AST (fixed specs of the exhaustive walk)
+func c20parseText(text string) (cSpec, bool) {
+	var s cSpec
+	fs := strings.Fields(text)
+	if len(fs) != 5 {
+		return s, false
+	}
+	for k, f := range fs {
+		if f == "*" {
+			s.F[k] = cField{Star: true}
+			continue
+		}
+		for _, o := range strings.Split(f, ",") {
+			var it cItem
+			var a, b, st int
+			switch {
+			case o == "L":
+				it = cItem{T: itLast}
+			case strings.HasSuffix(o, "L"):
+				fmt.Sscanf(o, "%dL", &a)
+				it = cItem{T: itLastW, A: a}
+			case strings.Contains(o, "#"):
+				fmt.Sscanf(o, "%d#%d", &a, &b)
+				it = cItem{T: itNth, A: a, B: b}
+			case strings.HasPrefix(o, "*/"):
+				fmt.Sscanf(o, "*/%d", &st)
+				it = cItem{T: itStarStep, S: st}
+			case strings.Contains(o, "/"):
+				fmt.Sscanf(o, "%d-%d/%d", &a, &b, &st)
+				it = cItem{T: itRangeStep, A: a, B: b, S: st}
+			case strings.Contains(o, "-"):
+				fmt.Sscanf(o, "%d-%d", &a, &b)
+				it = cItem{T: itRange, A: a, B: b}
+			default:
+				fmt.Sscanf(o, "%d", &a)
+				it = cItem{T: itNum, A: a}
+			}
+			s.F[k].Items = append(s.F[k].Items, it)
+		}
+	}
+	return s, s.valid() && s.String() == text
 }
 
 // c20sigIsRunAt classifies a matcher violation (signatures of listed findings would be matched here)
